@@ -584,8 +584,8 @@ class Engine:
                 if key[6:] not in loops:
                     out.append('loop %s' % key[6:])
             elif key.startswith('after:'):
-                if key[6:] not in assigned:
-                    out.append('local %s' % key[6:])
+                if key[6:].partition('@')[0] not in assigned:
+                    out.append('local %s' % key[6:].partition('@')[0])
             elif not ret_ok(key):
                 out.append('site %s' % key)
         for key in con.ghost_before:
@@ -720,10 +720,15 @@ class Engine:
             return
         names = assigned_names([s])
         for k in keys:
-            if k[6:] in names:
+            # 'after:<local>' = after every assignment to the local; 'after:<local>@<j>' = only after the j-th assignment site (in source order of first execution)
+            local, _, only = k[6:].partition('@')
+            if local in names:
+                site = self.site_count(fr, 'after:' + local, s.lineno)
+                if only and int(only) != site:
+                    continue
                 for c in fr.contract.asserts[k]:
                     v = self.eval_clause(c, st, fr.old)
-                    self.oblige(st, v, 'assert', c.label, c.tags, s.lineno, site='after %s@%d' % (k[6:], self.site_count(fr, k, s.lineno)))
+                    self.oblige(st, v, 'assert', c.label, c.tags, s.lineno, site='after %s@%d' % (local, site))
                     if not is_unk(v):
                         st.assume(self.dom.truth(v, st))
 
